@@ -6,7 +6,7 @@
 EXTENDS Integers, Sequences, FiniteSets, TLC
 P == INSTANCE PipeProps
 
-CONSTANTS Cfgs, QStep, MaxT
+CONSTANTS Cfgs, QStep, KeepSched, MaxT
 VARIABLES cfg, inb, outb, closed, ctl, pc, da, env, obs, now, sched
 vars == <<cfg, inb, outb, closed, ctl, pc, da, env, obs, now, sched>>
 View == <<cfg, inb, outb, closed, ctl, pc, da, env, obs, now>>
@@ -52,7 +52,7 @@ Lib == (PPush \/ PPushDone \/ PTimer \/ PCancel \/ DRecvBuf \/ DRecvHand \/ DRec
 
 Quiet == ~ENABLED Lib
 EnvOK == ~QStep \/ Quiet
-Log(c) == sched' = Append(sched, c)
+Log(c) == sched' = IF KeepSched THEN Append(sched, c) ELSE sched     \* the history variable is switched off for liveness checking
 Touch(o) == [o EXCEPT !.lastEnvAt = now]
 EnvSend == EnvOK /\ ~env.spend /\ ~env.closedIn /\ env.sidx <= Len(Input) /\ env' = [env EXCEPT !.spend = TRUE] /\ obs' = Touch(obs)
            /\ Log(Cmd("send", 0, "", 0, 0)) /\ UNCHANGED <<cfg, inb, outb, closed, ctl, pc, da, now>>
